@@ -148,8 +148,10 @@ def ctm_expected(transcripts, utt2wc, wc2utt):
     return order, groups
 
 
-def ctm_compare(observed, order, groups):
-    """None if `observed` (list of (id, [(tok, s, e)...])) is admissible, else a symptom string"""
+def ctm_compare(observed, order, groups, tol=0.0):
+    """None if `observed` (list of (id, [(tok, s, e)...])) is admissible, else a symptom string.
+    tol > 0 (relative to max(1, |t|)): times may differ by that much (non-dyadic times, where
+    start + (end - start) need not reproduce `end` to the last bit)."""
     ids = [u for u, _ in observed]
     if sorted(ids) != sorted(order):
         return "wrong-utterance-set"
@@ -157,8 +159,18 @@ def ctm_compare(observed, order, groups):
         return "duplicate-utterance"
     for u, segs in observed:
         segs = [tuple(x) for x in segs]
-        if sorted(segs) != sorted(groups[u]):
-            return "wrong-segments"
+        if tol == 0.0:
+            if sorted(segs) != sorted(groups[u]):
+                return "wrong-segments"
+        else:
+            if len(segs) != len(groups[u]):
+                return "wrong-segments"
+            for o, x in zip(sorted(segs, key=lambda z: (z[1], z[2], z[0])),
+                            sorted(groups[u], key=lambda z: (z[1], z[2], z[0]))):
+                if o[0] != x[0]:
+                    return "wrong-segments"
+                if abs(o[1] - x[1]) > tol * max(1.0, abs(x[1])) or abs(o[2] - x[2]) > tol * max(1.0, abs(x[2])):
+                    return "wrong-times"
         if any(segs[i][1] > segs[i + 1][1] for i in range(len(segs) - 1)):
             return "segments-not-in-start-order"
     if ids != order:
